@@ -1143,8 +1143,50 @@ class PendZ(PendLin):
         self.zz = zz
 
 
+class Poison:
+    """value of a local that was computed before the cut: the code after the cut must not read it"""
+    __slots__ = ("name",)
+
+    def __init__(self, name):
+        self.name = name
+
+    def __deepcopy__(self, memo):
+        return self
+
+    def __repr__(self):
+        return "Poison(%s)" % self.name
+
+
+class CutLeak(Exception):
+    pass
+
+
 class LoopInterp(HelperInterp):
+    def operand(self, fr, op):
+        v = HelperInterp.operand(self, fr, op)
+        if isinstance(v, Poison):
+            raise CutLeak("the code after the last recoder call reads `%s`, computed before it" % v.name)
+        return v
+
+    def poison_frame(self, fr, keep):
+        """after the cut only the digit arrays and the points in `keep` may flow on"""
+        names = {}
+        for nm, pl in fr.body.debug:
+            if re.fullmatch(r"_\d+", pl):
+                names[int(pl[1:])] = nm
+        for idx, cell in fr.locals.items():
+            v = cell.val
+            if v is None or idx in keep or idx == 0:
+                continue
+            if isinstance(v, Agg) and v.kind == "array" and v.fields and \
+                    all(isinstance(d, (IntV, SymV)) and d.bits == 8 and d.signed for d in v.fields):
+                continue            # a digit array
+            cell.val = Poison(names.get(idx, "_%d" % idx))
+
     def as_lin(self, v, what="point", pending=False):
+        x = v.get() if isinstance(v, Ref) else v
+        if isinstance(x, Poison):
+            raise CutLeak("the code after the last recoder call reads `%s`, computed before it" % x.name)
         try:
             return HelperInterp.as_lin(self, v, what, pending)
         except NotAbstractable:
@@ -1181,7 +1223,10 @@ def loop_scout(mir, cfg, curve, order):
     n = order
     args = [it.wrap(Lin.gen("Q")), Ref(Cell(it.wrap(Lin.gen("R")))), Ref(Cell(ScalV(SPoly.var(n, "s")))),
             Ref(Cell(ScalV(SPoly.var(n, "k"))))]
-    it.run_forking(it.find_fn(curve, "Point", "verify_helper_vartime"), args, lambda f, rv: None)
+    try:
+        it.run_forking(it.find_fn(curve, "Point", "verify_helper_vartime"), args, lambda f, rv: None)
+    except CutLeak:
+        pass            # reported by the chunk workers
     return info["L"]
 
 
@@ -1211,6 +1256,7 @@ def loop_chunk(mir, cfg, curve, order, lo, hi, Lloop):
             fr.cell(fr.debug_local(g)).val = interp.wrap(L_)
             gens.append(L_)
         interp.streams = [(ds, gens[i]) for i, (ds, _) in enumerate(interp.streams)]
+        interp.poison_frame(fr, {fr.debug_local(g) for g in hs.streams if g != "B"})
         # digits the loop never reads are zero (glue: domain of the multiplier; recoder: range lemma)
         for si, first in hs.top_zero:
             ds = interp.streams[si][0]
@@ -1349,9 +1395,14 @@ def loop_chunk(mir, cfg, curve, order, lo, hi, Lloop):
     n = order
     args = [it.wrap(Lin.gen("Q")), Ref(Cell(it.wrap(Lin.gen("R")))), Ref(Cell(ScalV(SPoly.var(n, "s")))),
             Ref(Cell(ScalV(SPoly.var(n, "k"))))]
-    it.run_forking(it.find_fn(curve, "Point", fname), args, on_return)
+    leak = None
+    try:
+        it.run_forking(it.find_fn(curve, "Point", fname), args, on_return)
+    except CutLeak as e:
+        leak = str(e)
     # ---- decide
-    res = {"checked": 0, "fails": [], "unknown": [], "secs": 0.0, "queries": 0, "paths": len(st["items"]),
+    res = {"checked": 0, "fails": [leak] if leak else [], "unknown": [], "secs": 0.0, "queries": 0,
+           "paths": len(st["items"]),
            "init": st["init"], "ops": dict(it.ops), "fns": sorted(nm for nm in it.executed if "::<impl" in nm),
            "cols": set(), "forks": it.nforks, "finals": len(finals)}
 
@@ -1950,7 +2001,8 @@ EVIDENCE = dict(
            "Point::isneutral / has_low_order / equals -> opaque predicate of the accumulated value": "C06 (isneutral, "
                                                                                                        "equals)"},
     assumptions=["cut after the last recoder call: the code after the cut reads only the digit arrays and the two signed "
-                 "points (P1, P2 / P0, P1), which are replaced by arbitrary values",
+                 "points (P1, P2 / P0, P1), which are replaced by arbitrary values (enforced: every other local of "
+                 "the frame is poisoned at the cut, a read of one is reported)",
                  "dropping the pending doublings does not change the final test: the group is Z/n (P-256) or has its "
                  "2-torsion of order dividing the cofactor, n odd",
                  "C1 invertible modulo n: C1*(s*G - R - k*Q) has trivial n-part iff s*G - R - k*Q has",
